@@ -45,7 +45,7 @@ MODELLED = ('layer B of table.py / row.py / element_cached.py (TableB.v): _tmap,
             'get_row().width get_values(area) get_row get_cell(keep repeat) traverse get_column columns; the `repeated` setters of live rows / cells (repaired, F8). '
             'TableBx.v / TableBspan.v: rstrip, optimize_width, transpose (end = fresh parse), set_span / del_span (reads through the cached wrappers, then the OSetLines write), '
             'Row.rstrip and the Row mutators through a live row handle, Column.repeated on the live column returned by append_column. NOT modelled: row / column groups and header rows (exercised).')
-KINDS = ['empty', 'prefilled', 'rle', 'rle', 'sample', 'wrapped']
+KINDS = ['empty', 'prefilled', 'rle', 'rle', 'sample', 'wrapped', 'xf']
 
 
 def _worker(job):
@@ -214,7 +214,7 @@ def run(tier, seed, replay=None):
     fid = sum(1 for c in bad.values() if c == 9); c01 = sum(1 for c in bad.values() if c == 8)
     cov = dict(
         trusted_base=TRUSTED, evaluations=steps, histories=len(results), distinct_nontrivial=len(distinct),
-        rule='initial tables {empty, Table(w,h), random run-length shapes written as XML text, tables of tests/samples/*.ods with clamped repeats, tables with table:table-header-rows / table-rows / table-header-columns / table-columns wrappers and row / column groups (judged on the visible table, without a model step)}; histories of 1-%d mutations of the 22 C01 '
+        rule='initial tables {empty, Table(w,h), random run-length shapes written as XML text, tables of tests/samples/*.ods with clamped repeats, tables with table:table-header-rows / table-rows / table-header-columns / table-columns wrappers and row / column groups (judged on the visible table, without a model step), tables of the transformation generator tablexf.g_xf_table (filled rows followed by bare / repeated / styled empty row elements, trailing empty cells, spare columns; their histories start with optimize_width / rstrip / transpose with probability 0.7)}; histories of 1-%d mutations of the 22 C01 '
              'entry points (positions around every run boundary of the current state, the edge, beyond, negative; repeats 1-4), each preceded with probability 1/2 by one or two cache-filling reads '
              '(get_row / get_cell with clone true or false, traverse, get_column, columns, get_value, get_row_values, get_cell) and replaced with probability 0.14 by a call on a live handle (`repeated` setter of a live row / cell, Row.append_cell / set_cell / insert_cell / delete_cell on a live row) and with probability 0.1 by one of rstrip, optimize_width, transpose, set_span, del_span (aimed at spans made earlier), Row.rstrip on a live row, the `repeated` setter of the live column returned by append_column (all with a model step; Row.rstrip(aggressive=True) and every step on a table with wrappers are judged by coherence, fresh parse, twin, expansion and reload only); '
              'after EVERY step: raw lxml abstraction, private state, the same call on a fresh parse, 9-13 observation reads live and fresh, every 3rd step Document.save -> reopen; corpus first. '
